@@ -59,6 +59,7 @@ fn dispatch(w: &[&str]) -> String {
         "freadb" => ops::freadb(&w[1..]),
         "areadb" => ops::areadb(&w[1..]),
         "awriteb" => ops::awriteb(&w[1..]),
+        "awritef" => ops::awritef(&w[1..]),
         _ => None
     };
     r.unwrap_or_else(|| "bad-op".into())
